@@ -286,12 +286,14 @@ def run(ctx):
         amap.update(r)
     size = 10
     tasks = []
+    # histories whose references are all known first; the others compute the missing references
+    # themselves (a slow machine shrinks the exploration, it does not empty it)
+    hist.sort(key=lambda hc: sum(1 for op in hc[1] if _key(op) not in amap))
     for i in range(0, n, size):
-        part = [(h, calls) for h, calls in hist[i:i + size] if all(_key(op) in amap for op in calls)]
-        if part:
-            keys = {_key(op) for _h, calls in part for op in calls}
-            tasks.append({"histories": part, "alone": {k: amap[k] for k in keys}})
-    done = ctx.map("task_histories", tasks, budget_s=ctx.budget_s * 0.5)
+        part = hist[i:i + size]
+        keys = {_key(op) for _h, calls in part for op in calls}
+        tasks.append({"histories": part, "alone": {k: amap[k] for k in keys if k in amap}})
+    done = ctx.map("task_histories", tasks, budget_s=ctx.budget_s * 0.5, min_tasks=24)
     violations, samples = [], []
     n_eval = n_calls = n_nontrivial = 0
     for _t, res in done:
